@@ -57,11 +57,14 @@ class Database:
                 root = ElementTree.parse(pdx_zip.open(zip_member)).getroot()
                 self._process_xml_tree(root)
             elif p.name.lower() == "index.xml":
-                root = ElementTree.parse(pdx_zip.open(zip_member)).getroot()
-                db_short_name = odxrequire(root.findtext("SHORT-NAME"))
-                self.short_name = db_short_name
+                self.add_index_file(pdx_zip.open(zip_member))
             else:
                 self.add_auxiliary_file(zip_member, pdx_zip.open(zip_member))
+
+    def add_index_file(self, index_file: Union[str, "PathLike[Any]", IO[bytes]]) -> None:
+        """Take the short name of the database from the catalog (`index.xml`) of a PDX"""
+        root = ElementTree.parse(index_file).getroot()
+        self.short_name = odxrequire(root.findtext("SHORT-NAME"))
 
     def add_odx_file(self, odx_file_name: Union[str, "PathLike[Any]"]) -> None:
         self._process_xml_tree(ElementTree.parse(odx_file_name).getroot())
